@@ -63,6 +63,8 @@ pub struct HubState {
     /// peers that silently drop everything addressed to them (unresponsive)
     pub silent: HashSet<String>,
     pub frames: Vec<Frame>,
+    /// raw /rr/ frames (from, to, bytes) for the request/response driver
+    pub rr_tap: Vec<(String, String, Vec<u8>)>,
     pub seq: u64,
     pub rng: ChaCha8Rng,
     pub delay_max_ms: u64,
@@ -91,6 +93,7 @@ impl Hub {
                 conns: HashSet::new(),
                 silent: HashSet::new(),
                 frames: Vec::new(),
+                rr_tap: Vec::new(),
                 seq: 0,
                 rng,
                 delay_max_ms,
@@ -201,6 +204,9 @@ impl VerifNet for Hub {
             let known = s.nodes.contains_key(to) && s.conns.contains(&pair(from, to));
             let silent = s.silent.contains(to);
             let fate = if !known { "unknown" } else if silent { "silent" } else { "delivered" };
+            if proto.starts_with("/rr/") {
+                s.rr_tap.push((from.to_string(), to.to_string(), frame.clone()));
+            }
             s.frames.push(Frame { seq, t_ms, from: from.to_string(), to: to.to_string(), proto, dht: dht.clone(), fate });
             if !known {
                 return Err(format!("no connection to {to}"));
